@@ -246,7 +246,7 @@ func runC02(c *Ctx, r *Report, tier string) {
 		}
 		r.Check(okC, "RUNES", psn, "only the last rune of a cluster may take the next token", c.ipos(in), "canarg = (byte offset + RuneLen(rune) == len(cluster)) ∧ ¬OptionalArgument", "canarg is "+trunc(c.term(canarg), 200))
 		// CLUSTER: argument operand
-		ap, ok := call.Call.Args[5].(*ssa.Phi)
+		ap, ok := c.resolve(call.Call.Args[5]).(*ssa.Phi)
 		okA := false
 		if ok {
 			okA = true
